@@ -140,3 +140,60 @@ class EnumStatic:
         r = self._run()
         hit = [f for f in r.failures if f['input'] == inp]
         return ({'replay': 'fail', 'what': hit[0]['message']} if hit else {'replay': 'pass'}), None
+
+
+class SurjStatic(EnumStatic):
+    """C06, compile-time half (bounded stand-in): a program WITHOUT `!` whose rule needs an element that the premise does not provide (an
+    application or variable in a conclusion that does not occur earlier, both sides of a concluded equation undefined) must be rejected --
+    otherwise close() would have to allocate an element or leave the rule unsatisfied; the neighbours (term bound in the premise, an equation
+    that gives an undefined application an EXISTING value, the same rule with `!`) must be accepted.  Expectations come from the statement."""
+    name = 'surj_static'
+
+    def _run(self):
+        r = driver.PartResult(self.name, 'bounded')
+        t0 = time.time()
+        r.rule = ('compile-time half: every program of /verif/probes/surj_static marked `expect: reject` (no `!`, but a conclusion needs an element the premise does not provide) is rejected with '
+                  'a diagnostic by the compiler built from the current tree; every `expect: accept` neighbour is accepted; distinct = one program; non-trivial = reject programs')
+        r.checker_cmd = 'python kit/enum_static.py (SurjStatic): eqlog <program> for /verif/probes/surj_static/*.eql'
+        try:
+            exe = G.build_compiler()
+        except Exception as e:     # noqa
+            r.status, r.reason = 'undecided', 'compiler-build-failed'
+            r.notes.append(str(e)[-1500:])
+            return r
+        wd = os.path.join(driver.workdir(), 'surj_static')
+        shutil.rmtree(wd, ignore_errors=True)
+        os.makedirs(wd)
+        files = sorted(glob.glob(os.path.join(driver.VERIF, 'probes', 'surj_static', '*.eql')))
+        if not files:
+            r.status, r.reason = 'undecided', 'no-static-probes-found'
+            return r
+        for k, f in enumerate(files):
+            base = os.path.basename(f)
+            m = re.match(r'^// expect: (reject|accept)\s*$', open(f).readline())
+            if not m:
+                r.status, r.reason = 'undecided', 'probe %s carries no expectation' % base
+                return r
+            p = self._compile(exe, f, wd, k)
+            r.evaluations += 1
+            out = (p.stderr + p.stdout).strip()
+            head = out.split('\n')[0][:200] if out else ''
+            what = cls = None
+            if p.returncode == 101 or 'panicked at' in p.stderr or p.returncode < 0:
+                what, cls = 'the compiler panicked on %s: %s' % (base, out[-300:]), 'grow-static-panic'
+            elif m.group(1) == 'reject':
+                r.distinct_nontrivial += 1
+                if p.returncode == 0:
+                    what, cls = 'the compiler ACCEPTS %s: no `!`, but a conclusion needs an element that the premise does not provide' % base, 'grow-static-accepted'
+                elif not out.startswith('Error'):
+                    what, cls = '%s is refused without a diagnostic (exit %d: %s)' % (base, p.returncode, head), 'grow-static-accepted'
+            elif p.returncode != 0:
+                what, cls = 'the compiler rejects %s, whose conclusions need no new element: %s' % (base, head), 'grow-static-neighbour-rejected'
+            if what:
+                r.failures.append({'obligation': what[:200], 'function': 'semantics::check_eqlog', 'message': what + ' -- ' + cls, 'input': 'static:' + base, 'native': self.name, 'class': cls})
+        r.exhaustive = True
+        r.notes.append('bound: %d static programs (%d must be rejected)' % (len(files), sum(1 for f in files if 'reject' in open(f).readline())))
+        if r.failures:
+            r.status = 'violation'
+        r.wall_s = time.time() - t0
+        return r
